@@ -669,8 +669,26 @@ class _Rewriter(ast.NodeTransformer):
                 out.append(s)
                 continue
             out.append(self._pt(s))
-            out.append(self.visit(s))
+            r = self.visit(s)
+            if isinstance(r, list):
+                out.extend(r)
+            else:
+                out.append(r)
         return out
+
+    def _iter_flag(self, node: ast.stmt) -> tuple[ast.stmt, ast.stmt, ast.stmt]:
+        """(init, guard, set) for a loop: the real interpreter reports the loop's header line again
+        each time it goes back for the next item / re-tests -- after the end of the body, after a
+        ``continue`` (and only after any ``finally`` blocks the ``continue`` leaves), and once more
+        when the loop is exhausted.  So the point sits at the START of every iteration but the
+        first (and, for ``for``, in front of the else-clause), not at the end of the body."""
+        n = getattr(self, "_nflags", 0)
+        self._nflags = n + 1
+        name = f"__co_it{n}"
+        init = ast.copy_location(ast.Assign(targets=[ast.Name(id=name, ctx=ast.Store())], value=ast.Constant(0)), node)
+        guard = ast.copy_location(ast.If(test=ast.Name(id=name, ctx=ast.Load()), body=[self._pt(node)], orelse=[]), node)
+        setf = ast.copy_location(ast.Assign(targets=[ast.Name(id=name, ctx=ast.Store())], value=ast.Constant(1)), node)
+        return init, guard, setf
 
     def visit_FunctionDef(self, node: ast.FunctionDef) -> ast.AST:
         # decorators/defaults are evaluated atomically in the enclosing scope
@@ -686,20 +704,29 @@ class _Rewriter(ast.NodeTransformer):
         node.orelse = self._block(node.orelse)
         return node
 
-    def visit_While(self, node: ast.While) -> ast.AST:
+    def visit_While(self, node: ast.While):  # type: ignore[no-untyped-def]
         node.test = self.visit(node.test)
-        # re-evaluating the loop test is a statement boundary too
-        node.body = self._block(node.body) + [self._pt(node)]
-        node.orelse = self._block(node.orelse)
-        return node
+        if node.orelse:
+            # while/else (rare): keep the simple form, the re-test point at the end of the body
+            node.body = self._block(node.body) + [self._pt(node)]
+            node.orelse = self._block(node.orelse)
+            return node
+        import copy
 
-    def visit_For(self, node: ast.For) -> ast.AST:
+        init, guard, setf = self._iter_flag(node)
+        leave = ast.copy_location(ast.If(test=ast.UnaryOp(op=ast.Not(), operand=node.test), body=[ast.copy_location(ast.Break(), node)], orelse=[]), node)
+        node.test = ast.copy_location(ast.Constant(True), node)
+        node.body = [copy.deepcopy(guard), setf, leave] + self._block(node.body)
+        return [init, node]
+
+    def visit_For(self, node: ast.For):  # type: ignore[no-untyped-def]
+        import copy
+
         node.iter = self.visit(node.iter)
-        # fetching the next item is a statement boundary too (the real interpreter reports the
-        # ``for`` line again on every iteration)
-        node.body = self._block(node.body) + [self._pt(node)]
-        node.orelse = self._block(node.orelse)
-        return node
+        init, guard, setf = self._iter_flag(node)
+        node.body = [copy.deepcopy(guard), setf] + self._block(node.body)
+        node.orelse = [copy.deepcopy(guard)] + self._block(node.orelse)
+        return [init, node]
 
     def visit_With(self, node: ast.With) -> ast.AST:
         for item in node.items:
